@@ -102,7 +102,7 @@ def join_states(a, b):
                     h[k] = UNK
             s.heap[ident] = h
         else:
-            s.heap[ident] = dict(a.heap.get(ident) or b.heap.get(ident))
+            s.heap[ident] = dict(a.heap.get(ident) or b.heap.get(ident) or {})
     s.must = a.must & b.must
     s.havoc = a.havoc | b.havoc
     return s
